@@ -244,6 +244,31 @@ def builder(R, P):
         return
     R.fn(f)
     hooks = BuilderHooks()
+    # the size estimate: the variable whose value becomes the capacity of the URI text, followed back through temporaries
+    # (and through the result of an expanded helper) to the variable the `+=` accumulations are made on
+    est_var = None
+    ini = [e for e in f.calls("aws_byte_buf_init") if argstr(f, e.node, 0).endswith("uri_str")]
+    if ini:
+        x = RU.uncast(f, RU.arg(f, ini[0].node, 2))
+        for _ in range(6):
+            if x is None or x["k"] != "var":
+                break
+            acc = [e for e in f.all_events() if e.kind == "access" and e.mode == "rw" and e.node["k"] == "var" and e.node["n"] == x["n"]]
+            if acc:
+                est_var = x["n"]
+                break
+            nxt = f.aliases().get(x["n"])
+            if nxt is None:
+                di = [v.get("init") for e in f.all_events() if e.kind == "decl" for v in e.node["vars"] if v["n"] == x["n"] and v.get("init") is not None]
+                nxt = di[0] if di else None
+            if nxt is None:
+                # a single assignment (an expanded helper's `result = <var>`)
+                asg = [el["a"][1] for b in f.blocks.values() for el in b.elems if el["k"] == "bin" and el["op"] == "=" and (f.d(el["a"][0]) or {}).get("k") == "var" and f.d(el["a"][0])["n"] == x["n"]]
+                nxt = asg[0] if len(asg) == 1 else None
+            x = RU.uncast(f, nxt) if nxt is not None else None
+    if not R.require(est_var is not None, "builder: the size estimate variable (capacity of uri_str) not found"):
+        return
+    hooks.monotone_keys = {(f.name, "v:" + est_var)}
     num = Num(f, P, hooks, max_paths=20000)
     try:
         num.states_at({-1})
@@ -277,7 +302,7 @@ def builder(R, P):
     est, app = None, None
     for h, body in loops.items():
         calls = [e for e in f.calls("aws_byte_buf_append") if e.blk in body]
-        adds = [e for e in f.all_events() if e.kind == "access" and e.mode == "rw" and e.node["k"] == "var" and e.node["n"] == "buffer_size" and e.blk in body]
+        adds = [e for e in f.all_events() if e.kind == "access" and e.mode == "rw" and e.node["k"] == "var" and e.node["n"] == est_var and e.blk in body]
         if calls:
             app = (h, calls)
         elif adds:
@@ -289,7 +314,7 @@ def builder(R, P):
     for b in loops[est[0]]:
         for el in f.blocks[b].elems:
             for x in f.walk(el):
-                if x["k"] == "bin" and x["op"] == "+=" and f.show(f.d(x["a"][0])) == "buffer_size":
+                if x["k"] == "bin" and x["op"] == "+=" and (f.d(x["a"][0]) or {}).get("k") == "var" and f.d(x["a"][0])["n"] == est_var:
                     inc = f.d(x["a"][1])
 
     def terms(n, out, const):
@@ -340,8 +365,15 @@ def builder(R, P):
             "estimate term %s + %d covers the appended pieces %s + %d literal bytes" % (sorted(et), ec[0], sorted(at), ac),
             "per parameter the estimate adds %s + %d bytes but the append loop writes %s + %d literal bytes: the built query is silently truncated" % (sorted(et), ec[0], sorted(at), ac))
     # both loops run over the same list with the same bound
-    hb = [f.show(f.blocks[h].cond) for h in (est[0], app[0])]
-    R.check(hb[0] == hb[1] == "(i < query_len)", "BUILDER", "builder:loops-same-range", "%s()" % f.name, "both loops run i < query_len over options->query_params")
+    def bound_of(h_):
+        g_ = RU.cmp_norm(f, f.blocks[h_].cond, True) if f.blocks[h_].cond is not None else None
+        if not g_ or g_[2] is None or g_[1] != "<":
+            return None
+        hev = [e for e in f.all_events() if e.blk == h_]
+        o_ = RU.origin(f, g_[2], hev[0] if hev else None)
+        return f.show(o_) if o_ is not None and o_["k"] == "call" and o_.get("callee") == "aws_array_list_length" else None
+    hb = [bound_of(h) for h in (est[0], app[0])]
+    R.check(hb[0] is not None and hb[0] == hb[1] and "query_params" in hb[0], "BUILDER", "builder:loops-same-range", "%s()" % f.name, "both loops run i < query_len over options->query_params")
 
 
 def alphabet(R, P):
@@ -442,6 +474,24 @@ def alphabet(R, P):
                 n += 1
                 dec = v is not None and arg is not None and ((entails(st, arg - 9) and (v - arg - 48).is_const() and (v - arg - 48).cval() == 0) or (entails(st, Poly.const(10) - arg) and (v - arg - 55).is_const() and (v - arg - 55).cval() == 0))
                 ok = ok and dec
+        if not (ok and n >= 2):
+            # the same mapping as a table: "0123456789ABCDEF"[value] (value & 15), contents checked from the initialiser
+            tab = {v["n"] for e in h.all_events() if e.kind == "decl" for v in e.node["vars"] if v.get("init") is not None and (RU.uncast(h, v["init"]) or {}).get("k") in ("str", "decay")
+                   and "0123456789ABCDEF" == ((lambda s_: s_.get("v") if s_ and s_["k"] == "str" else (h.d(s_["a"][0]) or {}).get("v") if s_ else None)(RU.uncast(h, v["init"])))}
+            tab |= {k for k, g_ in P.globals.items() if ((g_.get("init") or {}).get("str") == "0123456789ABCDEF")}
+            okt = bool(rets)
+            for r in rets:
+                x = RU.uncast(h, r["a"][0])
+                if x is None or x["k"] != "index":
+                    okt = False
+                    continue
+                b_, i_ = RU.uncast(h, x["a"][0]), RU.uncast(h, x["a"][1])
+                while b_ is not None and b_["k"] in ("decay", "cast"):
+                    b_ = h.d(b_["a"][0])
+                pn = h.params[0]["n"]
+                idx_ok = i_ is not None and ((i_["k"] == "var" and i_["n"] == pn) or (i_["k"] == "bin" and i_["op"] == "&" and h.show(RU.uncast(h, i_["a"][0])) == pn and h.is_const(i_["a"][1]) == 15))
+                okt = okt and b_ is not None and b_["k"] == "var" and b_["n"] in tab and idx_ok
+            ok, n = okt, 2
         R.check(ok and n >= 2, "ENCODER", "s_to_uppercase_hex:digits", "%s()" % h.name, "returns '0'+v for v < 10 and 'A'+v-10 for 10 <= v < 16")
     # the decoder's table maps exactly these digits back
     g = None
